@@ -330,6 +330,23 @@ fn check_crash_state(c: &Case, lines: &[Vec<u8>], st: &CrashState, append2: bool
         clause: "tail-broken-after-restart",
         detail: format!("after the restarted run: files {names:?}\n   {e}"),
     })?;
+    // "with all other guarantees intact": the symlink resolves to the file the restarted logger
+    // wrote its last record to
+    if c.cfg.symlink {
+        let last = new_lines.last().cloned().unwrap_or_default();
+        let through_link = std::fs::read(&link);
+        if !through_link.as_ref().is_ok_and(|b| b.ends_with(&last)) {
+            return Err(Fail {
+                clause: "symlink-stale-after-restart",
+                detail: format!(
+                    "after the restarted run the symlink points to {:?}, read through it: {:?}; the last record {:?} is in none of that; files {names:?}",
+                    std::fs::read_link(&link).ok().and_then(|t| t.file_name().map(|f| f.to_string_lossy().to_string())),
+                    through_link.map(|b| String::from_utf8_lossy(&b).to_string()),
+                    String::from_utf8_lossy(&last)
+                ),
+            });
+        }
+    }
     if let Some((k, m)) = c.cfg.rotation.and_then(|r| r.2.limits()) {
         let kk = if c.cfg.naming().is_some_and(NamingK::direct) { k.max(1) } else { k };
         if plain > kk || gz > m {
